@@ -85,7 +85,7 @@ theorem C04_wrapper_spec (t : Tables) (w : Wrapper) (tol : Tol) (htol : tol.ok) 
   obtain ⟨hA, _, _, _, hF, _⟩ := wfAll_spec hw
   -- the perturbed frame parses to exactly what the exact frame parses to
   have hpp := IRModel.Props.C04.parse_perturbed t tol htol hA hwt mo x hlo hxs _ hidx li' sy' mo' g' hli hsy hmo' hgap
-  obtain ⟨frame, c0, hff', hdec0, hview0⟩ := C01_wrapper_spec t w tol htol hw p hS u hu hr
+  obtain ⟨frame, c0, hff', hdec0, hview0⟩ := C01_wrapper_spec t w tol htol (engineRT_A t tol htol hw) p hS u hu hr
   have hfe : frame = frameA t mo x ((fieldsOf t.params (t.params.map (kwVal p envU))).flatMap (fieldIdx t)) := by
     rw [hff] at hff'; injection hff' with h; exact h.symm
   -- the exact frame's parse, from the engine theorem
